@@ -185,3 +185,8 @@ pub fn fin(_a: Sym) -> bool { true }
 pub fn last_cond_lhs() -> Vec<Sym> { ST.with(|s| s.borrow().conds.last().map(|c| c.1.iter().map(|e| e.0).collect()).unwrap_or(vec![])) }
 pub fn syms_json(v: &Vec<Sym>) -> String { format!("[{}]", v.iter().map(|s| s.0.to_string()).collect::<Vec<_>>().join(",")) }
 pub fn flat_vec<T: Flat>(x: &T) -> Vec<Sym> { let mut v = vec![]; x.flat(&mut v); v }
+pub fn has_note(t: &str) -> bool { ST.with(|s| s.borrow().notes.iter().any(|n| n == t)) }
+pub fn cond_count() -> usize { ST.with(|s| s.borrow().conds.len()) }
+pub fn cond_sides(i: usize) -> (Vec<Sym>, Vec<Sym>) {
+    ST.with(|s| { let s = s.borrow(); let c = &s.conds[i]; (c.1.iter().map(|e| e.0).collect(), c.1.iter().map(|e| e.1).collect()) })
+}
